@@ -222,6 +222,45 @@ func (c *Ctx) guarded(fn *ssa.Function, g guard, minSites int, ename string, eff
 		c.fail(construct, c.at(g.unchecked[0]), fmt.Sprintf("result of guard %q is never tested by a branch at %s (check dropped or result ignored)", g.name, join(c.ats(g.unchecked))), sites...)
 		return false
 	}
+	if mode == gDominate && len(effects) > 0 && len(g.weak) > 0 {
+		// a test of a merged value counts as a test of the guarded value when
+		// the paths that bring a plain nil to the merge (a helper's "nothing
+		// received" result: `return zero, false`) cannot reach an effect (the
+		// accompanying flag sends them elsewhere)
+		isEff := map[ssa.Instruction]bool{}
+		for _, e := range effects {
+			isEff[e] = true
+		}
+		var still []guardSite
+		for _, s := range g.weak {
+			ph := s.br.Via
+			okPromote := ph != nil
+			other := 0
+			if ph != nil {
+				for i, e := range ph.Edges {
+					switch {
+					case ir.IsNil(e):
+						ir.WalkCtx(ph.Block(), 0, ph.Block().Preds[i], nil, func(in ssa.Instruction) bool {
+							if isEff[in] {
+								okPromote = false
+							}
+							return okPromote
+						})
+					case ir.KnownNonNil(e):
+					default:
+						other++
+					}
+				}
+			}
+			if okPromote && other == 1 {
+				s.br.Pol, s.br.Via = 0, nil
+				g.sites = append(g.sites, s)
+			} else {
+				still = append(still, s)
+			}
+		}
+		g.weak = still
+	}
 	// a test of a merged value (weak site) establishes the failure side of the
 	// guard, not its success side: it counts where only the failure side is
 	// used (failure-edge mode, or a pure "the result is tested" obligation)
